@@ -299,11 +299,12 @@ def jobs(tier):
             for nbs in (None, 1, 3):
                 for kind in ("complex", "positive", "mixed"):
                     k += 1
-                    if tier == "quick" and (k % 3) and not (kind == "complex" and (nbs is None or (N + bs) % 2 == 0)):
-                        continue
+                    if tier == "quick" and (k % 3) and not (kind == "complex" and (nbs is None or (N + bs) % 2 == 0)) \
+                            and not (nbs is None and (N + bs) % 3 == 0) and not (kind == "positive" and nbs == 3 and N == 4):
+                        continue  # (every state type keeps jobs with the negative batch size defaulted and with it given)
                     if kind == "mixed" and (N + bs) % 2:
                         continue
-                    form = ("tensor", "ndarray", "list")[k % 3]
+                    form = ("tensor", "ndarray", "list")[(k + k // 3) % 3]
                     J.append(dict(name="%s-N%d-bs%d-neg%s-%s" % (kind, N, bs, nbs, form), module="checks.c07", scenario="batching",
                                   kwargs=dict(kind=kind, N=N, bs=bs, nbs=nbs, epochs=2 if tier == "quick" else 3, form=form)))
     return J
